@@ -15,7 +15,16 @@ def invocations(p, bs, backup, out):
            ('tune2fs -l', [T['tune2fs'], '-l', p]), ('resize2fs -P', [T['resize2fs'], '-P', p]),
            ('e2image -r', [T['e2image'], '-r', p, out]), ('e2image -Q', [T['e2image'], '-Q', p, out]), ('e2image', [T['e2image'], p, out]),
            ('e2freefrag', [T['e2freefrag'], p]), ('mke2fs -n', [T['mke2fs'], '-n', '-F', p]),
-           ('dumpe2fs -b', [T['dumpe2fs'], '-b', p])]
+           ('dumpe2fs -b', [T['dumpe2fs'], '-b', p]),
+           # every option spelling of the read-only tools that changes how the filesystem is opened
+           ('debugfs -n', [T['debugfs'], '-n', '-R', 'stats', p]), ('debugfs -s -b', [T['debugfs'], '-s', str(backup), '-b', str(bs), '-R', 'stats', p]),
+           ('debugfs -n -s -b', [T['debugfs'], '-n', '-s', str(backup), '-b', str(bs), '-R', 'ls -l /', p]), ('debugfs -c -n', [T['debugfs'], '-c', '-n', '-R', 'stat /', p]),
+           ('debugfs modifying request without -w', [T['debugfs'], '-n', '-R', 'mkdir /c13x', p]),
+           ('dumpe2fs -o superblock', [T['dumpe2fs'], '-o', 'superblock=%d' % backup, '-o', 'blocksize=%d' % bs, p]), ('dumpe2fs -f -g', [T['dumpe2fs'], '-f', '-g', p]), ('dumpe2fs -m', [T['dumpe2fs'], '-m', p]),
+           ('e2fsck -nfvtt', [T['e2fsck'], '-n', '-f', '-v', '-t', '-t', p]), ('e2fsck -n -b', [T['e2fsck'], '-n', '-b', str(backup), '-B', str(bs), p]),
+           ('resize2fs -P -f', [T['resize2fs'], '-P', '-f', p]), ('e2freefrag -c', [T['e2freefrag'], '-c', '4', p]),
+           ('e2image -ra', [T['e2image'], '-ra', p, out]), ('e2image -Qa', [T['e2image'], '-Qa', p, out]),
+           ('mke2fs -n ext4', [T['mke2fs'], '-n', '-F', '-t', 'ext4', '-O', 'quota', '-d', '/nonexistent', p])]
     return inv
 
 def pipeline(job):
@@ -32,7 +41,8 @@ def pipeline(job):
     bad = []; n = 0
     st0 = os.stat(p); sig0 = (st0.st_mtime_ns, st0.st_size)
     for label, argv in invocations(p, bs, backup, out):
-        if not full and label in ('e2image', 'e2image -Q', 'dumpe2fs -b', 'e2freefrag', 'debugfs -c'):
+        if not full and label in ('e2image', 'e2image -Q', 'dumpe2fs -b', 'e2freefrag', 'debugfs -c', 'debugfs -c -n', 'dumpe2fs -o superblock', 'dumpe2fs -f -g', 'dumpe2fs -m', 'e2fsck -nfvtt', 'e2fsck -n -b',
+                                  'resize2fs -P -f', 'e2freefrag -c', 'e2image -ra', 'e2image -Qa', 'mke2fs -n ext4', 'debugfs modifying request without -w'):
             continue
         if os.path.exists(out): os.unlink(out)
         rc, txt = run(argv, timeout=6)
